@@ -2722,6 +2722,7 @@ int32 parseFinished(ssl_t *ssl, int32 hsLen,
         psTraceBytes("have", hsMsgHash, hsLen);
         return MATRIXSSL_ERROR;
     }
+    ssl->flags &= ~SSL_FLAGS_READ_CCS;
 #ifdef ENABLE_SECURE_REHANDSHAKES
     /* Got the peer verify_data for secure renegotiations */
     Memcpy(ssl->peerVerifyData, c, hsLen);
